@@ -309,7 +309,7 @@ var propStreams = map[string][]string{
 	"C01": {"BUILDER"},
 	"C02": {"BUILDER"},
 	"C03": {"BUILDER"},
-	"C04": {"BUILDER"},
+	"C04": {"BUILDER", "BHIST"},
 	"C05": {"COMMIT"},
 	"C06": {"BUILDER", "BHIST"},
 	"C07": {"BUILDER", "BHIST"},
@@ -317,7 +317,7 @@ var propStreams = map[string][]string{
 	"C09": {"COMPACT", "CHIST"},
 	"C10": {"SHARE", "COMPACT", "SPARSE"},
 	"C11": {"COMPACT"},
-	"C12": {"BUILDER", "COMPACT", "CHIST"},
+	"C12": {"BUILDER", "COMPACT", "CHIST", "BHIST"},
 	"C13": {"COUNTER", "ARITHLEN", "SPARSE", "BUILDER"},
 	"C14": {"BHIST", "CHIST"},
 	"C15": {"ARITH"},
@@ -334,7 +334,7 @@ var propOps = map[string][]string{
 	"C01": {"sq build", "sq construct"},
 	"C02": {"sq construct", "sh deconstruct"},
 	"C03": {"sq build", "sq construct"},
-	"C04": {"sq build", "sq construct", "sq blobrange", "sh wpfbs"},
+	"C04": {"sq build", "sq construct", "sq blobrange", "sh wpfbs", "b blobidx", "b wpfb", "b bloblen"},
 	"C05": {"commit roots", "sh rowroot"},
 	"C06": {"sq build", "b "},
 	"C07": {"sq build", "sq construct"},
@@ -342,7 +342,7 @@ var propOps = map[string][]string{
 	"C09": {"css ", "sh parsetxs"},
 	"C10": {"share ", "css export", "css write", "sss "},
 	"C11": {"css ", "sh parsetxs"},
-	"C12": {"sq txrange", "sq blobrange", "css ranges", "css write", "css export"},
+	"C12": {"sq txrange", "sq blobrange", "css ranges", "css write", "css export", "b txrange"},
 	"C13": {"cnt ", "arith ", "sq blobrange"},
 	"C14": {"css ", "b "},
 	"C15": {"arith "},
